@@ -87,3 +87,49 @@ MARGIN_CONTRACTS = {
                'ensures': {'explicit_pair_uses_the_pair_gap': 'implies(ipair >= 0, result == m.pair_gap[ipair])',
                            'dynamic_pair_uses_the_sum_of_geom_gaps': 'implies(ipair < 0, result == m.geom_gap[g1] + m.geom_gap[g2])'}},
 }
+
+
+# mjc_PlaneCapsule (geom g1 = plane, g2 = capsule): the two end spheres of the capsule against the plane, through mjraw_PlaneSphere's contract.
+XP_ = lambda g, k: 'd.geom_xpos[3*%s + %s]' % (g, k)
+PC_DEFS = {
+    'PN': 'lambda k: d.geom_xmat[9*g1 + 2 + 3*k]',                                      # plane normal
+    'AXC': 'lambda k: d.geom_xmat[9*g2 + 2 + 3*k]',                                     # capsule axis
+    'EPT': 'lambda s, k: d.geom_xpos[3*g2 + k] + s*m.geom_size[3*g2 + 1]*AXC(k)',        # centre of the end sphere on side s = +1 / -1
+    'HGT': 'lambda s: (EPT(s, 0) - %s)*PN(0) + (EPT(s, 1) - %s)*PN(1) + (EPT(s, 2) - %s)*PN(2)' % (XP_('g1', 0), XP_('g1', 1), XP_('g1', 2)),   # height of that centre above the plane
+    'RAD': 'm.geom_size[3*g2]',
+    'TOUCH': 'lambda s: HGT(s) - RAD <= margin',
+    'REP_DIST': 'lambda c, s: c.dist == HGT(s) - RAD',
+    'REP_FRAME': 'lambda c, s: c.normal[0] == PN(0) and c.normal[1] == PN(1) and c.normal[2] == PN(2) and c.tangent[0] == AXC(0) and c.tangent[1] == AXC(1) and c.tangent[2] == AXC(2)',
+    'REP_POS': 'lambda c, s: And(*[2*c.pos[k] == (EPT(s, k) - RAD*PN(k)) + (EPT(s, k) - HGT(s)*PN(k)) for k in (0, 1, 2)])',
+}
+PLANE_CAPSULE = {
+    'params': {'m': {'n': 1, 'ptrfields': {'geom_size': {'len': '3 * m.ngeom'}}},
+               'd': {'n': 1, 'ptrfields': {'geom_xpos': {'len': '3 * m.ngeom'}, 'geom_xmat': {'len': '9 * m.ngeom'}}}, 'con': {'n': 2}},
+    'defs': PC_DEFS,
+    'requires': {'geoms': '0 <= g1 and g1 < m.ngeom and 0 <= g2 and g2 < m.ngeom and m.ngeom < 2**20',
+                 'unit_plane_normal': 'PN(0)*PN(0) + PN(1)*PN(1) + PN(2)*PN(2) == 1', 'radius': 'RAD >= 0'},
+    'ensures': {
+        'one_contact_per_end_sphere_within_margin': 'result == (1 if TOUCH(1) else 0) + (1 if TOUCH(-1) else 0)',
+        'upper_end_first/dist_is_the_gap_of_the_end_sphere': 'implies(TOUCH(1), REP_DIST(con[0], 1))',
+        'upper_end_first/normal_is_the_plane_normal_and_tangent_the_capsule_axis': 'implies(TOUCH(1), REP_FRAME(con[0], 1))',
+        'upper_end_first/pos_is_the_midpoint': 'implies(TOUCH(1), REP_POS(con[0], 1))',
+        'lower_end_second/dist_is_the_gap_of_the_end_sphere': 'implies(TOUCH(1) and TOUCH(-1), REP_DIST(con[1], -1))',
+        'lower_end_second/normal_is_the_plane_normal_and_tangent_the_capsule_axis': 'implies(TOUCH(1) and TOUCH(-1), REP_FRAME(con[1], -1))',
+        'lower_end_second/pos_is_the_midpoint': 'implies(TOUCH(1) and TOUCH(-1), REP_POS(con[1], -1))',
+        'lower_end_alone_first/dist_is_the_gap_of_the_end_sphere': 'implies(not TOUCH(1) and TOUCH(-1), REP_DIST(con[0], -1))',
+        'lower_end_alone_first/normal_is_the_plane_normal_and_tangent_the_capsule_axis': 'implies(not TOUCH(1) and TOUCH(-1), REP_FRAME(con[0], -1))',
+        'lower_end_alone_first/pos_is_the_midpoint': 'implies(not TOUCH(1) and TOUCH(-1), REP_POS(con[0], -1))',
+    },
+    'no_error': True,
+}
+
+
+def plane_capsule_contracts():
+    c = dict(CONTRACTS)
+    others = ' and '.join(['at(con, k).dist == old(at(con, k).dist)'] + ['at(con, k).%s[%d] == old(at(con, k).%s[%d])' % (f, j, f, j) for f in ('normal', 'pos', 'tangent') for j in range(3)])
+    ps = dict(CONTRACTS['mjraw_PlaneSphere'], assumed=True, assigns=['con[*]'])
+    # the collider writes only the contact it is handed (it stores through con-> only; its own unit proves what it stores there)
+    ps['ensures'] = dict(ps['ensures'], writes_only_the_contact_it_is_given='forall(lambda k: implies(k != off(con), %s))' % others)
+    c['mjraw_PlaneSphere'] = ps
+    c['mjc_PlaneCapsule'] = PLANE_CAPSULE
+    return c
